@@ -50,12 +50,13 @@ let result_str = function
   | ROk -> "ok"
   | RErrFormat -> "efmt"
   | RErrBadCred -> "badcred"
+  | RErrPutDisabled -> "putdisabled"
   | RCred c -> Printf.sprintf "c:%s:%s:%s:%s" (hex_of_str c.c_user) (hex_of_str c.c_pass)
                  (hex_of_str c.c_refresh) (hex_of_str c.c_access)
 
 let parse_result (t : string) : result =
   match String.split_on_char ':' t with
-  | ["ok"] -> ROk | ["efmt"] -> RErrFormat | ["badcred"] -> RErrBadCred
+  | ["ok"] -> ROk | ["efmt"] -> RErrFormat | ["badcred"] -> RErrBadCred | ["putdisabled"] -> RErrPutDisabled
   | ["c"; u; p; r; a] -> RCred { c_user = str_of_hex u; c_pass = str_of_hex p;
                                  c_refresh = str_of_hex r; c_access = str_of_hex a }
   | _ -> RErrFormat
@@ -88,12 +89,13 @@ let md5 s = Digest.to_hex (Digest.string s)
 
 (* Get: Go's map iteration order is not observable; the model yields every
    possible answer and the observed one is accepted when it is among them *)
+let disable_put = ref false
 let step_hinted st (o, hint) : state * string =
   match o, hint with
   | Get a, Some h ->
     let cands = List.map result_str (x_candidates st.st_mem.m_cache a) in
     (st, if List.mem h cands then h else List.hd cands)
-  | _ -> let (st', r) = x_step st o in (st', result_str r)
+  | _ -> let (st', r) = x_fs_step !disable_put st o in (st', result_str r)
 
 let history id =
   match parse_init () with
@@ -101,21 +103,37 @@ let history id =
   | Some f ->
     let n = next_int () in
     let ops = times n parse_op in
+    let rec trailer l (m, dp) = match l with
+      | "MODE" :: x :: r -> trailer r (x, dp)
+      | "DP" :: x :: r -> trailer r (m, x = "1")
+      | _ -> (m, dp) in
+    let (initmode, dp) = trailer !toks ("-", false) in
+    disable_put := dp;
     (match x_open_store f with
      | None -> Printf.printf "%s LOADERR\n" id
      | Some st0 ->
        let st = ref st0 in
-       let res = ref [] and files = ref [] in
+       let res = ref [] and files = ref [] and saved = ref false in
        List.iter (fun oh ->
+           if x_saves !st (fst oh) && not (dp && (match fst oh with Put (_, _) -> true | _ -> false)) then saved := true;
            let (st', r) = step_hinted !st oh in
            st := st'; res := r :: !res; files := md5 (canon_doc st'.st_file) :: !files) ops;
-       Printf.printf "%s RES %s FILES %s FINAL %s\n" id (String.concat " " (List.rev !res))
-         (String.concat " " (List.rev !files)) (canon_doc !st.st_file))
+       (* the mode of the config file: 0600 once anything was saved (Model/CredSave.v mode_file) *)
+       let mode = if !saved then Printf.sprintf "%o" (int_of_n mode_file) else initmode in
+       Printf.printf "%s RES %s FILES %s FINAL %s MODE %s\n" id (String.concat " " (List.rev !res))
+         (String.concat " " (List.rev !files)) (canon_doc !st.st_file) mode)
 
-(* crash cut: paths are symbolic D (dir), P (config), T (temp) *)
-let p_dir = str_of_hex "44" and p_cfg = str_of_hex "50" and p_tmp = str_of_hex "54"
+(* crash cut: paths are symbolic: D1 D2 .. (the chain of config-directory levels), P (config), T (temp).
+   The first token lists the mode of every level, comma separated, "-" = missing. *)
+let p_cfg = str_of_hex "50" and p_tmp = str_of_hex "54"
+let p_dir i = str_of_hex (Printf.sprintf "44%02x" (48 + i))
+let parse_chain tok =
+  let ms = String.split_on_char ',' tok in
+  let chain = List.mapi (fun i _ -> p_dir i) ms in
+  let dirs = List.concat (List.mapi (fun i m -> if m = "-" then [] else [ (p_dir i, n_of_int (int_of_string m)) ]) ms) in
+  (chain, dirs)
 let crash id =
-  let dirmode = next () in
+  let (chain, dirs) = parse_chain (next ()) in
   let old = next () in
   let oldmode = next_int () in
   let k = next_int () in
@@ -123,24 +141,23 @@ let crash id =
   let n = next_int () in
   let chunks = times n next_str in
   let files = if old = "ABSENT" then [] else [ (p_cfg, { f_data = str_of_hex old; f_mode = n_of_int oldmode }) ] in
-  let dirs = if dirmode = "-" then [] else [ (p_dir, n_of_int (int_of_string dirmode)) ] in
   let fs0 = { fs_files = files; fs_dirs = dirs } in
-  let steps = save_steps p_dir p_cfg p_tmp chunks in
+  let steps = save_steps chain p_cfg p_tmp chunks in
   let fs1 = exec_all fs0 (cut_at steps (nat_of_int k) (nat_of_int w)) in
   let show p = match fget p fs1 with
     | None -> "ABSENT"
     | Some f -> Printf.sprintf "%s/%o" (hex_of_str f.f_data) (int_of_n f.f_mode) in
-  let showd = match dget p_dir fs1 with None -> "-" | Some m -> Printf.sprintf "%o" (int_of_n m) in
+  let showd = String.concat "," (List.map (fun d -> match dget d fs1 with None -> "-" | Some m -> Printf.sprintf "%o" (int_of_n m)) chain) in
   Printf.printf "%s STEPS %d DIR %s CFG %s TMP %s\n" id (List.length steps) showd (show p_cfg) (show p_tmp)
 
 let script id =
-  let dirmode = next () in
+  let (chain, dirs) = parse_chain (next ()) in
   let n = next_int () in
   let sizes = times n next_int in
   let chunks = List.map (fun k -> List.init k (fun _ -> n_of_int 0)) sizes in
-  let steps = save_steps p_dir p_cfg p_tmp chunks in
+  let steps = save_steps chain p_cfg p_tmp chunks in
   let names = List.concat_map (function
-      | MkdirAll (_, _) -> if dirmode = "-" then ["mkdir"] else []
+      | MkdirAll (d, _) -> if List.mem_assoc d dirs then [] else ["mkdir"]
       | CreateExcl (_, _) -> ["creat"]
       | Chmod (_, _) -> ["chmod"]
       | Write (_, d) -> [Printf.sprintf "write:%d" (List.length d)]
@@ -152,6 +169,7 @@ let script id =
 (* concurrent run: accepted when some interleaving of the threads' operations
    (each one critical section) reproduces every observed result and the final file *)
 let concurrent id =
+  disable_put := false;
   match parse_init () with
   | None -> raise (Bad "init")
   | Some f ->
